@@ -127,10 +127,16 @@ def opClient (args : List String) (impl : String) : Verdict :=
           match wrong with
           | some j => some ("C03: printed time " ++ outs.getD j "" ++ " is not the signed midpoint converted from the protocol's unit")
           | none => none
+      -- the requests themselves: the model's make_request with the observed nonce must give the observed bytes
+      let reqDiff : Option String := reqs.findSome? fun q =>
+        match Client.makeRequest Sha512.hash ver (nonceOfRequest p q) pk? with
+        | .ok mq => if mq = q then none else some "request bytes differ from the model's make_request for the same nonce and key"
+        | _ => some "model make_request fails"
       match c01, c03 with
       | some e, _ => l1 label e
       | none, some e => l1 label e
       | none, none =>
+        if reqDiff.isSome then l2 label (reqDiff.getD "") else
         let implStr := "exit=" ++ toString exit ++ " out=" ++ (if outs.isEmpty then "-" else "|".intercalate outs) ++
           " ver=" ++ (if vers.isEmpty then "-" else "|".intercalate vers) ++ " idx=" ++ (if idxs.isEmpty then "-" else "|".intercalate idxs)
         if implStr = modelStr then ok label
